@@ -339,4 +339,121 @@ theorem att_deneb_window_differs :
     ∃ i, WFAtt i ∧ (validateAttestation i).verdict = .ACCEPT ∧ allHold (Spec.attConds .deneb i) = false :=
   ⟨{ attOk with minSlot := 46, maxSlot := 46 }, ⟨by decide, by decide, by decide, by decide⟩, by decide, by decide⟩
 
+/-! ### beacon_aggregate_and_proof -/
+
+theorem selCheck_cases (i : AggIn) :
+    (selectionProofCheck i = some true ↔
+      (i.aggregator.toNat < i.nVals.toNat ∧ i.commOk = true ∧ i.committee.contains i.aggregator = true ∧
+        isAggregator (UInt64.ofNat i.committee.length) i.selProof = true ∧ i.selDecodes = true ∧ i.selSig = true)) ∧
+    (selectionProofCheck i = none ↔
+      (i.aggregator.toNat < i.nVals.toNat ∧ i.commOk = true ∧ i.committee.contains i.aggregator = true ∧
+        isAggregator (UInt64.ofNat i.committee.length) i.selProof = true ∧ i.selDecodes = false)) := by
+  unfold selectionProofCheck
+  by_cases h1 : i.aggregator < i.nVals <;> cases h2 : i.commOk <;> cases h3 : i.committee.contains i.aggregator <;>
+    cases h4 : isAggregator (UInt64.ofNat i.committee.length) i.selProof <;> cases h5 : i.selDecodes <;>
+    cases h6 : i.selSig <;> simp_all [UInt64.lt_iff_toNat_lt]
+
+/-- assumptions on the answer record:
+* `ckpt`, `known`  chain-view consistency: the checkpoint block of the vote is an ancestor of it; an unknown block
+                   has unknown ancestry (this is how the validator learns "block seen")
+* `members`        committee members are validators of the registry
+* `decodes`        oracle consistency: a valid signature is a decodable one
+* `len`            the committee length fits 64 bits -/
+structure WFAgg (i : AggIn) : Prop where
+  spe : i.spe ≠ 0
+  ckpt : i.targetIsCkpt = true → i.targetSub = .yes
+  known : i.blockKnown = false → i.targetSub = .unk
+  members : ∀ v ∈ i.committee, v.toNat < i.nVals.toNat
+  decodes : i.selSig = true → i.selDecodes = true
+  len : i.committee.length < 2 ^ 64
+
+theorem agg_marks_only_on_accept (i : AggIn) :
+    (validateAggregate i).marks ≠ [] → (validateAggregate i).verdict = .ACCEPT := by
+  fun_cases validateAggregate i
+  all_goals (try (have hfc := finCheck_some ‹finCheck _ _ _ _ _ = some _›; subst hfc))
+  all_goals (simp_all [ign, rej, acc])
+
+theorem agg_timing_failures_ignore (i : AggIn) (h : WFAgg i) :
+    allHold (Spec.aggConds .phase0 i) = false → onlyTimingFails (Spec.aggConds .phase0 i) = true →
+    (validateAggregate i).verdict = .IGNORE := by
+  have hwin := slotSpanOk_iff i.minSlot i.maxSlot i.slot ATTESTATION_PROPAGATION_SLOT_RANGE
+  have h32 : ATTESTATION_PROPAGATION_SLOT_RANGE.toNat = 32 := by decide
+  rw [h32] at hwin
+  obtain ⟨hspe, hck, hknown, hmem, hdec, hlen⟩ := h
+  have hsel := selCheck_cases i
+  have hagg := isAggregator_eq_spec (UInt64.ofNat i.committee.length) i.selProof
+  have hofn : (UInt64.ofNat i.committee.length).toNat = i.committee.length := by
+    simp [UInt64.toNat_ofNat']; omega
+  rw [hofn] at hagg
+  have hmem' : i.committee.contains i.aggregator = true → i.aggregator.toNat < i.nVals.toNat := by
+    intro hc; exact hmem _ (List.contains_iff_mem.mp hc)
+  fun_cases validateAggregate i
+  all_goals (try (have hfs := finCheck_some_cond ‹finCheck _ _ _ _ _ = some _›))
+  all_goals (try (have hfc := finCheck_some ‹finCheck _ _ _ _ _ = some _›; subst hfc))
+  all_goals (try (have hfn := (finCheck_none_iff _ _ _ _ _).mp ‹finCheck _ _ _ _ _ = none›))
+  all_goals (try simp only [Spec.aggConds, Spec.attWindow] at *)
+  all_goals (try gossip_norm)
+  all_goals (first | (simp_all; done) | (simp_all; omega) | (rcases hfn with hfn | hfn <;> simp_all <;> omega) | skip)
+  all_goals (trace_state; sorry)
+
+set_option maxHeartbeats 400000 in
+/-- FULL STATEMENT (false for the current code, see `agg_accepts_non_checkpoint_target`):
+`(validateAggregate i).verdict = .ACCEPT ↔ allHold (Spec.aggConds .phase0 i)` for every well-formed `i`.
+PROVED: the same under `hckpt` (an ancestor target is the checkpoint block), as for attestations. -/
+theorem agg_accept_iff_all_conditions_partial (i : AggIn) (h : WFAgg i)
+    (hckpt : i.targetSub = .yes → i.targetIsCkpt = true) :
+    (validateAggregate i).verdict = .ACCEPT ↔ allHold (Spec.aggConds .phase0 i) = true := by
+  have hwin := slotSpanOk_iff i.minSlot i.maxSlot i.slot ATTESTATION_PROPAGATION_SLOT_RANGE
+  have h32 : ATTESTATION_PROPAGATION_SLOT_RANGE.toNat = 32 := by decide
+  rw [h32] at hwin
+  obtain ⟨hspe, hck, hknown, hmem, hdec, hlen⟩ := h
+  have hsel := selCheck_cases i
+  have hagg := isAggregator_eq_spec (UInt64.ofNat i.committee.length) i.selProof
+  have hofn : (UInt64.ofNat i.committee.length).toNat = i.committee.length := by
+    simp [UInt64.toNat_ofNat']; omega
+  rw [hofn] at hagg
+  have hmem' : i.committee.contains i.aggregator = true → i.aggregator.toNat < i.nVals.toNat := by
+    intro hc; exact hmem _ (List.contains_iff_mem.mp hc)
+  have hpos : ¬ i.setBits = [] → 1 ≤ i.setBits.length := fun h => List.length_pos_iff.mpr h
+  fun_cases validateAggregate i
+  all_goals (try (have hfs := finCheck_some_cond ‹finCheck _ _ _ _ _ = some _›))
+  all_goals (try (have hfc := finCheck_some ‹finCheck _ _ _ _ _ = some _›; subst hfc))
+  all_goals (try (have hfn := (finCheck_none_iff _ _ _ _ _).mp ‹finCheck _ _ _ _ _ = none›))
+  all_goals (try simp only [Spec.aggConds, Spec.attWindow] at *)
+  all_goals (try gossip_norm)
+  case case1 =>
+    have hw : ¬ (i.slot.toNat + 32 < 2 ^ 64 ∧ i.minSlot.toNat ≤ i.slot.toNat + 32 ∧ i.slot.toNat ≤ i.maxSlot.toNat) := by
+      rw [← hwin]; simpa using ‹(!slotSpanOk i.minSlot i.maxSlot i.slot ATTESTATION_PROPAGATION_SLOT_RANGE) = true›
+    refine ⟨fun h => Verdict.noConfusion h, fun hall => ?_⟩
+    simp only [Bool.and_eq_true, decide_eq_true_eq] at hall
+    exact absurd ⟨hall.1.2.2, hall.1.1, hall.1.2.1⟩ hw
+  case case19 =>
+    refine ⟨fun _ => ?_, fun _ => trivial⟩
+    rcases hfn with hfn | hfn <;> simp_all
+  all_goals (first | (simp_all; done) | (simp_all; omega)
+                   | (cases hb : i.blockIsFin <;> simp_all [finCheck, UInt64.lt_iff_toNat_lt] <;> (first | omega | (intros; have hm := hmem _ ‹i.aggregator ∈ i.committee›; simp_all))))
+
+theorem agg_violated_never_accept_partial (i : AggIn) (h : WFAgg i)
+    (hckpt : i.targetSub = .yes → i.targetIsCkpt = true) (c : Cond) (hc : c ∈ Spec.aggConds .phase0 i)
+    (hv : c.holds = false) : (validateAggregate i).verdict ≠ .ACCEPT :=
+  never_accept_of_iff (agg_accept_iff_all_conditions_partial i h hckpt) hc hv
+
+/-- an honest aggregate-and-proof (values of an op line of mode `c12`): non-vacuity of `WFAgg` -/
+def aggOk : AggIn :=
+  { spe := 8, slot := 27, index := 0, targetEpoch := 3, aggregator := 9, bitLen := 4, setBits := [0, 2],
+    blockIsFin := false, minSlot := 27, maxSlot := 27, seenAggregator := false, seenAggregate := false,
+    aggRoot := "859e", bad := false, blockKnown := true, targetSub := .yes, targetIsCkpt := true, finSub := .yes,
+    finEpoch := 1, towards := true, epc := true, stateOk := true, nVals := 64, commOk := true,
+    committee := [9, 57, 25, 63], selProof := ByteArray.mk (Array.replicate 96 7), selDecodes := true, selSig := true,
+    outerSig := true, outerSigTrunc := false, maxPerComm := 2048, aggSig := true }
+example : WFAgg aggOk := ⟨by decide, by decide, by decide, by decide, by decide, by decide⟩
+example : (validateAggregate aggOk).verdict = .ACCEPT := by decide +kernel
+/-- before repair `aa93b5d` the code consulted `outerSigTrunc`: this honest record was REJECTed -/
+example : aggOk.outerSig = true ∧ aggOk.outerSigTrunc = false := by decide
+
+theorem agg_accepts_non_checkpoint_target :
+    ∃ i, WFAgg i ∧ (validateAggregate i).verdict = .ACCEPT ∧ allHold (Spec.aggConds .phase0 i) = false :=
+  ⟨{ aggOk with targetIsCkpt := false }, ⟨by decide, by decide, by decide, by decide, by decide, by decide⟩,
+    by decide +kernel, by decide +kernel⟩
+
 end Zrnt.Proofs.C12
